@@ -304,10 +304,33 @@ def apply_unified_diff(before, diff_text):
     return hunks
 
 
-def check_scenario(seed, keep_dir=False):
+def plain_scenario(**over):
+    """A deterministic, fault-free base scenario (one pattern family, commit + tag, no hooks, clean tree) with the
+    given attributes overridden: for directed cases that must not depend on the luck of a seed."""
+    sc = Scenario(0)
+    sc.pattern, sc.current = "MAJOR.MINOR.PATCH", "0.1.9"
+    sc.sep, sc.final_newline = "\n", True
+    sc.commit, sc.tag, sc.push, sc.dry = True, True, False, False
+    sc.flags, sc.set_version, sc.commit_message = ["--patch"], None, None
+    sc.cfg_commit_message = "bump version {old_version} -> {new_version}"
+    sc.nfiles = 2
+    sc.files = {"src/mod.py": ["# module", '__version__ = "\x01"', "tail"], "notes.txt": ["notes", "release \x01 here", 'pep = "\x02"']}
+    sc.occ = {"src/mod.py": [(1, "quoted")], "notes.txt": [(1, "version"), (2, "pep440")]}
+    sc.file_patterns = {"src/mod.py": ['__version__ = "{version}"'], "notes.txt": ["release {version} here", 'pep = "{pep440_version}"']}
+    sc.kinds_ok = True
+    sc.split_entries, sc.globs = {}, {fn: GLOB_CHOICES[fn][0] for fn in sc.files}
+    sc.fault, sc.fault_file = None, None
+    sc.tags, sc.scope, sc.cli_scope, sc.conflict = [], "default", None, False
+    sc.dirty, sc.allow_dirty, sc.fail_cmd, sc.pre_hook, sc.post_hook = "", False, None, None, None
+    for k, v in over.items():
+        setattr(sc, k, v)
+    return sc
+
+
+def check_scenario(seed, keep_dir=False, sc=None):
     """Run one scenario; returns dict prop -> None (held / not applicable) or failure text."""
     ensure_src()
-    sc = Scenario(seed)
+    sc = sc if sc is not None else Scenario(seed)
     res = {}
     d = tempfile.mkdtemp(prefix="bvshadow_")
     try:
@@ -360,6 +383,9 @@ def check_scenario(seed, keep_dir=False):
             res["C09"] = res["C06"] = f"new version {new!r} equals a tag on another branch but the update went through (exit 0)"
         if sc.conflict and not sc.dry and [f for f in set(before) | set(after) if before.get(f) != after.get(f)]:
             res["C06"] = f"new version rejected (tag conflict) but files changed (exit {rc})"
+        # ---- C06 / C13: a configured pattern without an occurrence / a missing configured file is an error, also under --dry
+        if sc.fault is not None and rc == 0:
+            res["C13" if sc.dry else "C06"] = f"update{' --dry' if sc.dry else ''} exited 0 although a configured pattern has no occurrence / a configured file is missing (fault {sc.fault} in {sc.fault_file})"
         # ---- C06 / C13: failures leave everything untouched
         if rc != 0 or sc.dry:
             changed = [f for f in set(before) | set(after) if before.get(f) != after.get(f)]
@@ -455,7 +481,8 @@ def check_scenario(seed, keep_dir=False):
         if rc_dry == 0 and not sc.dry and sc.fault is None:
             if rc != 0 and not (sc.fail_cmd or sc.pre_hook in ("fail", "signal") or sc.post_hook in ("fail", "signal") or (bool(sc.dirty) and not sc.dirty.startswith("??") and not sc.allow_dirty)):
                 res["C13"] = f"--dry exit 0 but real run exit {rc}: {err[-200:]}"
-        if res:
+        res["_rc"] = rc
+        if any(not k.startswith("_") for k in res):
             res["_detail"] = dict(seed=seed, pattern=sc.pattern, current=sc.current, argv=sc.argv(sc.dry)[2:], exit=rc, old=old, new=new, fault=sc.fault, stderr=err[-400:])
         return res
     except Exception as e:  # noqa
